@@ -15,7 +15,7 @@ CHECKS = {
              note='base case (FEN constructor) is iostream code and not encoded; FEN text formatting not encoded; clocks bounded (hm<=150)', ref='DESIGN.md 2/C02'),
  'C03': dict(text='do_move;undo_move and do_null_move;undo_null_move from an arbitrary RI-state restore every field (board, bitboards, counts, piece lists as sets, rights, '
              'en-passant square, clocks, all five key components, history) for every legal move of the listed material; one step composes to nested sequences by induction.',
-             note='piece lists compared as sets; evaluation/move generation after undo follow from field equality', ref='DESIGN.md 2/C03'),
+             note='piece lists compared as sets, and arbitrarily reordered between the move and its take-back (what nested make/unmake pairs may leave); evaluation/move generation after undo follow from field equality', ref='DESIGN.md 2/C03'),
  'C04': dict(text='For every Zobrist table: HashKey::init equals the definition of the key, and every do_move/do_null_move changes each key component by exactly the cells of what '
              'changed (pawn part only for pawns), hence incremental key = scratch key on every history (induction) and equal positions have equal keys.',
              note='PIECE_HASH via indicator encoding justified by a syntactic XOR-linearity check on the IR; collision odds of random tables outside the claim', ref='DESIGN.md 2/C04'),
@@ -23,21 +23,21 @@ CHECKS = {
              'combination of limits, every root list (incl. searchmoves) and every delivery point of a stop, go() calls Position::uci exactly once with a root move and every reported PV starts with a root move.',
              note='Level B: one node of search()/quiescence_search() as compiled with arbitrary (poisoned) table entry: PV head and stored move are always moves of the node, do/undo balanced. Level A bounded to 3 (quick) / 12 (thorough) completed iterations', ref='DESIGN.md 2/C05'),
  'C06': dict(text='The real Search::stop() is delivered at every point of the Level A schedule of go(); the solver proves that after it returned no further root search completes and go() returns with its bestmove. '
-             'Data-race freedom of the flag is decided on the IR (the member must be std::atomic).',
+             'Delivery points: before go() resumes, every clock read, before/inside every root search, while an info line is printed (between iterations). Data-race freedom of the flag is decided on the IR (the member must be std::atomic).',
              note='interleavings modelled sequentially (stop() is one store); isready and thread lifetime in uci.cpp not covered; wall-clock promptness not modelled', ref='DESIGN.md 2/C06'),
  'C07': dict(text='is_in_check is proved equal to the rules reference for both colours on symbolic positions; is_checkmate/is_stalemate are proved to be exactly (no generated move) and (in check / not); '
              'is_repeated/threefold_repetition are proved against arbitrary key histories (earlier occurrences, the current entry skipped); rule50 for all 256 clock values; '
              'enough_material for all piece-count vectors (0..10 per kind); is_draw is the disjunction. A lemma query proves the two formulations of the reference attack test equal on every board.',
              note='keys identify positions (C04); history maintenance is C02/C03; empty move list means no legal move (C01); history length bounded by the unwinding (12 quick / 100 thorough)', ref='DESIGN.md 2/C07'),
- 'C08': dict(text='Inductive step at one node of search()/quiescence_search() executed as compiled (children by contract): values stay in [-VALUE_MATE, VALUE_MATE] (no +-infinity read as mate), a node without moves is mate only when in check, '
+ 'C08': dict(text='Inductive step at one node of search()/quiescence_search() executed as compiled (children by contract): values stay in [-VALUE_MATE, VALUE_MATE] (no +-infinity read as mate), a returned mate score is exactly one ply further than the mate score of a child searched after a move of the node (for every interleaving of null-window searches and re-searches), a node without moves is mate only when in check, '
              'at the root with the full window a mating move becomes PV head with value win_in(1) for every ordering and every value of the other moves; score2str prints mate distances in moves (ceil(plies/2)).',
              note='partial by design: existence of a forced mate behind every announcement for whole searches is a whole-program property and is NOT claimed; model cuts and stubs listed in the evidence', ref='DESIGN.md 2/C08'),
  'C09': dict(text='In the Level A harness print_info is proved to be called with consecutive depths 1,2,..., never above a finite requested depth (0..60, clamping in the constructor included), '
-             'bestmove comes no later than iteration d, and with searchmoves the root list is exactly the given moves and bestmove is one of them.',
+             'bestmove comes no later than iteration d, and with searchmoves the root list is exactly the given moves and bestmove is one of them; Level B proves on the root node of search() as compiled that its PV head is a root move whatever the transposition table holds (the contract Level A uses).',
              note='termination of the aspiration loop relies on the contract value range; bounded number of completed iterations', ref='DESIGN.md 2/C09'),
  'C10': dict(text='Boundary harnesses with CBMC array-bounds/pointer checks: do_move/undo_move with the history counter at 1, 799, 800 for symbolic positions and moves; add_piece up to ten of a kind; '
-             '(thorough) iter_search with depth limits 41..60. The same checks are active on all translated functions in every other check.',
-             note='I/O layer, std containers, search stack indices inside search()/quiescence_search() and uninitialised reads are not covered', ref='DESIGN.md 2/C10'),
+             'generate_pins on an arbitrary occupancy stays inside PINS[MAX_PINS]; one node of search()/quiescence_search() at the last stack indices; (thorough) iter_search with depth limits 41..60. The same checks are active on all translated functions in every other check.',
+             note='I/O layer, std containers, move-list capacity (256 per ply) and uninitialised reads are not covered', ref='DESIGN.md 2/C10'),
  'C11': dict(text='Every slider lookup (bishop, rook, queen; 64 squares) is proved equal to the ray walk for ALL 2^64 occupancies by the solver, on the tables the '
              'real init() computes; leaper/line/castling tables and shift<>/pawn_attacks are proved equal to their geometric definitions for symbolic squares/bitboards. '
              'No bound other than the fixed trip counts of the reference loops.',
@@ -55,17 +55,17 @@ CHECKS = {
              'the 781 constants are compared with a digest of the pinned commit.',
              note='no independent copy of Random64 exists offline: constant VALUES are only covered by the nine vectors and by the digest of the pinned tree', ref='DESIGN.md 2/C18'),
  'C19': dict(text='decode_move is proved against its specification for every stored move and board; the weighted random policy is proved to return exactly the entry whose cumulative-weight '
-             'interval contains the sample (hence probability proportional to weight and never a zero-weight move) for every sample and weight vector; the best policy returns a maximal-weight entry.',
-             note='the file reader loop (std::ifstream/std::map code) is NOT covered; map lookup and RNG are stubbed; entries per key bounded (3 quick / 5 thorough)', ref='DESIGN.md 2/C19'),
+             'interval contains the sample (hence probability proportional to weight and never a zero-weight move) for every sample and weight vector; the best policy returns a maximal-weight entry. The file reader (PolyglotBook constructor as compiled, iostream/map/vector by recording models) is proved to load exactly the complete 16-byte records of an arbitrary file of 0..63 bytes (or an unopenable one), decoded per the Polyglot layout.',
+             note='libstdc++ itself is modelled (stream = byte buffer with a fail state, map/vector = recording stubs); files up to 3 records; map lookup and RNG are stubbed; entries per key bounded (3 quick / 5 thorough)', ref='DESIGN.md 2/C19'),
  'C14': dict(text='PositionScorer::score is executed as compiled on a symbolic position with scorer A and on its colour mirror with scorer B, ALL scratch members of both scorers arbitrary on entry: equal values for every '
              'choice prove that nothing survives from earlier evaluations (purity) and colour symmetry; the value is proved to lie strictly inside the non-mate range. A second family of queries proves that setup<> recomputes '
-             'every working set from the position alone (failures there are reported only when a native battery demonstrates an evaluation difference).',
+             'every working set from the position alone (failures there are reported only when a native battery demonstrates an evaluation difference); a third family proves get_outposts<c> and score_pawns_for_side<c> colour-symmetric on pawn structures with doubled pawns.',
              note='pawn cache switched off in the queries (transparency argued from the code, not encoded); general evaluator only for small material (K+P v k+p quick); endgame evaluators covered through C13', ref='DESIGN.md 2/C14'),
  'C15': dict(text='move_is_capture, move_is_quiet and move_gives_check are proved to agree with the outcome of playing the move in the rules reference for every legal move '
              '(promotions, en passant, castling, discovered checks) of every placement of the listed material.',
              note='slider_attack<> by contract (C11); material bound', ref='DESIGN.md 2/C15'),
- 'C16': dict(text='Packed Move and MoveInfo encodings decode to the fields they were built from, for all field values (no bound).',
-             note='FEN text and move text (std::string/iostream code) are not covered by this check', ref='DESIGN.md 2/C16'),
+ 'C16': dict(text='Packed Move and MoveInfo encodings decode to the fields they were built from, for all field values (no bound). FEN round trip: Position::fen() and Position(std::string) as compiled and composed (std::string / string streams / std::map by models generated from the translation\'s prototypes) reproduce placement, side, rights, en-passant square and clocks for every consistent (side, rights, en-passant, clocks) over five fixed placements; thorough adds arbitrary content of rank 1 / rank 8 and bare kings on symbolic squares. Move text: parse_uci(uci(m)) == m and the long-algebraic format of the text, both functions as compiled, for an ARBITRARY board and every move of legal shape (no material bound).',
+             note='FEN: placements are concrete in the quick tier (a fully symbolic run-length coded board text does not finish in the budget); decimal formatting/parsing of the two numbers is libstdc++ and modelled as one token; std::string modelled as (pointer, length)', ref='DESIGN.md 2/C16'),
  'C20': dict(text='Assume/guarantee: importance() on precise IEEE arithmetic lies in [0.01,1]; IEEE addition/division/truncation lemmas proved; computeTimeForFixedLength as compiled (importance and IEEE operations by '
              'those contracts) returns a value in [0,T], monotone in T, for every movesToGo (symbolic); calculateTime as compiled with that contract is non-negative and at most 70% of the remaining time for all clock states; '
              'monotonicity of calculateTime is attempted.',
